@@ -456,6 +456,30 @@ def established_head(fi: FuncInfo, node: ast.AST, base: ast.expr, param_heads: D
     return head, exact, other
 
 
+_KNOWN_PREDICATES = {"isinstance", "issubclass", "len", "hasattr", "type", "any", "all", "bool", "set", "list", "tuple", "sorted"}
+
+
+def _opaque_predicates(fi: FuncInfo, node, base) -> List[str]:
+    """calls of functions the tables do not describe, in a fact that dominates `node` with polarity True and takes
+    the matched sub-term (or a term it is part of) as an argument"""
+    root = base
+    while isinstance(root, (ast.Attribute, ast.Subscript)):
+        root = root.value
+    rn = root.id if isinstance(root, ast.Name) else None
+    out = []
+    for e, pol in guard_facts(fi, node):
+        if not pol:
+            continue
+        for c in ast.walk(e):
+            if isinstance(c, ast.Call) and isinstance(c.func, (ast.Name, ast.Attribute)):
+                nm = c.func.id if isinstance(c.func, ast.Name) else c.func.attr
+                if nm in _KNOWN_PREDICATES or (isinstance(c.func, ast.Name) and nm[:1].isupper()):
+                    continue
+                if rn is not None and any(isinstance(x, ast.Name) and x.id == rn for a in c.args for x in ast.walk(a)):
+                    out.append(norm(c)[:60])
+    return out
+
+
 def check_arity(ctx: Ctx, rule: str, fi: FuncInfo, param_heads: Dict[str, Optional[str]]) -> int:
     """every `X.args[c]` in fi: head of X established; c < arity; variadic heads need an exact
     `len(X.args) == n` guard (reading the first c of an unknown number of arguments discards the rest)."""
@@ -483,7 +507,11 @@ def check_arity(ctx: Ctx, rule: str, fi: FuncInfo, param_heads: Dict[str, Option
             continue
         seen.add((role, head, exact, guards))
         n_ob += 1
-        if head is None or head in LEAF_HEADS or "|" in str(head):
+        opaque = _opaque_predicates(fi, n, base)
+        if (head is None or head in LEAF_HEADS or "|" in str(head)) and opaque:
+            # the node is admitted by a predicate the analysis cannot read: what it establishes is unknown
+            ctx.undecided(fi.short, f"{rule} [{role}]: `{norm(base)}` is tested by `{opaque[0]}`, a predicate outside the tables ({fi.loc(n)})")
+        elif head is None or head in LEAF_HEADS or "|" in str(head):
             ctx.fail(rule, fi, role, f"argument {c} of `{norm(base)}` is read but no dominating isinstance/dispatcher fact establishes its head (found: {head})", n)
         elif head in FIXED_ARITY:
             ctx.check(
